@@ -137,6 +137,31 @@ def check_inventory(v, sy):
     return info
 
 
+def check_operator_impls_unused(v):
+    """Thorough tier: the argument for the `.unwrap()` sites in `impl Add<i32> for SimpleNumber` & co. is that no
+    non-test code uses those operators.  Verify it: copy the tree, delete the four impls, build the three crates."""
+    dst = os.path.join(vplib.BUILD, "scratch", "c07_noops")
+    os.makedirs(dst, exist_ok=True)
+    rc, out = vplib.sh(["rsync", "-a", "--delete", "--exclude", "target", "--exclude", ".git", vplib.REPO + "/", dst + "/src/"], timeout=120)
+    if rc != 0:
+        v.notes.append("operator-impl check skipped: rsync failed")
+        return None
+    p = os.path.join(dst, "src", "data", "src", "data", "number.rs")
+    src = open(p, encoding="utf-8").read()
+    a, b = src.find("impl Add<i32> for SimpleNumber {"), src.find("impl GarnishNumber for SimpleNumber {")
+    if a < 0 or b < a:
+        v.tie_failure("operator-impl check: the Add/Mul impls of number.rs were not found where panic_map.json says they are")
+        return False
+    open(p, "w", encoding="utf-8").write(src[:a] + src[b:])
+    rc, out = vplib.sh(["cargo", "build", "--offline", "-p", "garnish_lang_simple_data", "-p", "garnish_lang_runtime", "-p", "garnish_lang_compiler"],
+                       cwd=os.path.join(dst, "src"), timeout=900, env={"CARGO_TARGET_DIR": os.path.join(dst, "target")})
+    if rc != 0:
+        v.tie_failure("panic_map.json argues that nothing outside tests uses `SimpleNumber + i32` / `* i32`, but the crates no longer build "
+                      "without those impls: " + out[-300:])
+        return False
+    return True
+
+
 # ------------------------------------------------------------------ the check
 def run(tier, seed):
     v = Verdict(PID, tier, seed)
@@ -156,6 +181,8 @@ def run(tier, seed):
     # 1. sync
     sy = vplib.sync(["panicsites"])   # only this check's table (the Coq cone of C07 depends on no other generated file)
     inv_info = check_inventory(v, sy)
+    if tier == "thorough":
+        inv_info["operator_impls_unused_outside_tests"] = check_operator_impls_unused(v)
     phase("sync+inventory")
     # 2. prove
     pr = vplib.prove(PID, PROOF_DIRS, extra_targets=["Extract/IdxExtract.vo"])
